@@ -550,8 +550,12 @@ fn gen_packet_raw(rng: &mut Rng, sw: &Swarm, t: u8) -> Ast {
             let flagged = props.iter().any(|(id, v)| *id == 0x01 && *v == PVal::Byte(1));
             if (sw.big_permil > 0 && rng.chance(1, 200) || flagged && rng.chance(1, 60)) && !tiny() {
                 // payload sizes that are exact powers of two (buffer / chunk boundaries)
-                let n = 1usize << rng.urange(10, 17);
-                let delta = *rng.pick(&[0usize, 0, 0, 1]);
+                let (n, delta) = if flagged {
+                    // text payloads that span at least one 64 KiB boundary
+                    (*rng.pick(&[65_536usize, 65_537, 70_000, 131_072, 131_073]), 0)
+                } else {
+                    (1usize << rng.urange(10, 17), *rng.pick(&[0usize, 0, 0, 1]))
+                };
                 payload = Bs(vec![b'P'; n + delta]);
             }
             Ast::Publish {
